@@ -23,10 +23,14 @@ TRUSTED = [
     'not modelled here: genshi/path.py — SelectTransformation is modelled as a function of the per-event results of Path.test(), '
     'which the harness records from the real code and sends along (the XPath model and its theorems are C05/C17); '
     'the oracle uses its own tree evaluator for the generated path subset',
-    'only exercised (nesting in -> out on the real code): HTMLSanitizer (theorems: C06), Translator (C19), EmptyTagFilter / '
-    'WhitespaceFilter / NamespaceFlattener / DocTypeInserter (C09/C08/C02)',
-    'lazy generator interleaving of a chain is modelled as stage-wise composition; a buffer injected before a buffer() '
-    'barrier separates it from its copy()/cut() is answered `unmodelled` and only checked by the oracle',
+    'models owned by other properties (tied there), well-nestedness stated in Props/C20.lean, nesting in -> out checked by the '
+    'oracle on the real code: HTMLSanitizer (C06), Translator (C19), EmptyTagFilter / WhitespaceFilter / NamespaceFlattener '
+    '(partial: namespace-free / single-namespace forests) / DocTypeInserter (C09/C08/C02)',
+    'the push formulation of the pulled generator pipeline (Model/TfLazy.lean pushItem: an item yielded by link k is processed '
+    'by link k+1 before k continues); the stage-wise composition (lazy_agrees_stagewise) and the link-by-link trace semantics '
+    '(lazy_trace_semantics) are theorems about it, and the driver compares all three on every generated chain',
+    'callable injector content is driven with callables returning a constant; stateful callables, Elements containing a '
+    'StreamBuffer, map(f, kind) for kinds other than TEXT/None are not modelled (notes/C20.md, audit table)',
 ]
 ASSUMPTIONS = [
     'input streams are well nested; content injected by replace/before/after/prepend/append is well nested',
